@@ -32,7 +32,7 @@ func newGoMapObject(value reflect.Value) *goMapObject {
 func (o goMapObject) toKey(name string) reflect.Value {
 	reflectValue, err := stringToReflectValue(name, o.keyType.Kind())
 	if err != nil {
-		panic(err)
+		panic(newError(nil, "TypeError", 0, "%q is not a key of %s", name, o.value.Type()))
 	}
 	return reflectValue
 }
@@ -106,7 +106,12 @@ func goMapDefineOwnProperty(obj *object, name string, descriptor property, throw
 
 func goMapDelete(obj *object, name string, throw bool) bool {
 	goObj := obj.value.(*goMapObject)
-	goObj.value.SetMapIndex(goObj.toKey(name), reflect.Value{})
+	key, err := stringToReflectValue(name, goObj.keyType.Kind())
+	if err != nil {
+		// not a possible key: there is no such property (8.12.7 step 2)
+		return true
+	}
+	goObj.value.SetMapIndex(key, reflect.Value{})
 	// FIXME
 	return true
 }
